@@ -70,6 +70,7 @@ func TransformModuleFilesToModel( //nolint:funlen,gocognit,cyclop
 	rawTypeDefs := []*openfgav1.TypeDefinition{}
 	types := []string{}
 	extendedTypeDefs := map[string][]*openfgav1.TypeDefinition{}
+	extendingFiles := []string{} // files with extensions, in the order of the input
 	conditions := map[string]*openfgav1.Condition{}
 	moduleFiles := map[string][]string{}
 
@@ -108,6 +109,7 @@ func TransformModuleFilesToModel( //nolint:funlen,gocognit,cyclop
 			if extension {
 				if extendedTypeDefs[module.Name] == nil {
 					extendedTypeDefs[module.Name] = []*openfgav1.TypeDefinition{}
+					extendingFiles = append(extendingFiles, module.Name)
 				}
 
 				extendedTypeDefs[module.Name] = append(extendedTypeDefs[module.Name], typeDef)
@@ -130,7 +132,18 @@ func TransformModuleFilesToModel( //nolint:funlen,gocognit,cyclop
 			rawTypeDefs = append(rawTypeDefs, typeDef)
 		}
 
-		for name, condition := range mdl.GetConditions() {
+		// conditions, extensions and relations are visited in a fixed order so that the reported errors do not depend
+		// on map iteration
+		conditionNames := make([]string, 0, len(mdl.GetConditions()))
+		for name := range mdl.GetConditions() {
+			conditionNames = append(conditionNames, name)
+		}
+
+		slices.Sort(conditionNames)
+
+		for _, name := range conditionNames {
+			condition := mdl.GetConditions()[name]
+
 			if _, ok := conditions[name]; ok {
 				lineIndex := utils.GetConditionLineNumber(name, lines)
 				line, col := utils.ConstructLineAndColumnData(lines, lineIndex, name)
@@ -160,7 +173,8 @@ func TransformModuleFilesToModel( //nolint:funlen,gocognit,cyclop
 		}
 	}
 
-	for filename, typeDefs := range extendedTypeDefs {
+	for _, filename := range extendingFiles {
+		typeDefs := extendedTypeDefs[filename]
 		lines := moduleFiles[filename]
 
 		for _, typeDef := range typeDefs {
@@ -210,7 +224,16 @@ func TransformModuleFilesToModel( //nolint:funlen,gocognit,cyclop
 				existingRelationNames = append(existingRelationNames, name)
 			}
 
-			for name, relation := range typeDef.GetRelations() {
+			relationNames := make([]string, 0, len(typeDef.GetRelations()))
+			for name := range typeDef.GetRelations() {
+				relationNames = append(relationNames, name)
+			}
+
+			slices.Sort(relationNames)
+
+			for _, name := range relationNames {
+				relation := typeDef.GetRelations()[name]
+
 				if slices.Contains(existingRelationNames, name) {
 					lineIndex := utils.GetRelationLineNumber(name, lines)
 					line, col := utils.ConstructLineAndColumnData(lines, lineIndex, name)
